@@ -237,7 +237,65 @@ let run_pair kvs ikvs =
   let (ws, s2c, es) = one Server (int_of_string (get_or kvs "sthr" "0")) (get kvs "progs") in
   Printf.sprintf "c2s=%s s2c=%s wc2s=%s ws2c=%s expc2s=%s exps2c=%s" c2s s2c wc ws ec es
 
+(* ---- suites hs-accept / hs-dial ---- *)
+let dec_hdrs (s : string) : (n list * n list list) list =
+  if s = "-" || s = "" then [] else begin
+    let items = List.map (fun x -> let i = String.index x '~' in (String.sub x 0 i, unhex (String.sub x (i + 1) (String.length x - i - 1)))) (String.split_on_char '|' s) in
+    (* group values by key preserving first-appearance order of keys and order of values (http.Header semantics) *)
+    let keys = List.fold_left (fun acc (k, _) -> if List.mem k acc then acc else acc @ [k]) [] items in
+    List.map (fun k -> (bytes_of_string k, List.filter_map (fun (k', v) -> if k' = k then Some (bytes_of_string v) else None) items)) keys
+  end
+let dec_list (s : string) : n list list = if s = "-" || s = "" then [] else List.map (fun x -> bytes_of_string (unhex x)) (String.split_on_char ',' s)
+let mode_of (s : string) = match s with "1" -> MTakeover | "2" -> MNoTakeover | _ -> MDisabled
+let co_str (c : copts option) = match c with None -> "none" | Some c -> (if c.cnct then "1" else "0") ^ (if c.snct then "1" else "0")
+
+let run_hs_accept kvs _ =
+  let (maj, min) = Scanf.sscanf (get kvs "proto") "%d.%d" (fun a b -> (a, b)) in
+  let r = { q_method = bytes_of_string (unhex (get kvs "method")); q_major = nat_of_int maj; q_minor = nat_of_int min;
+            q_host = bytes_of_string (unhex (get kvs "host")); q_hdrs = dec_hdrs (get kvs "hdrs") } in
+  let o = { a_subprotocols = dec_list (get kvs "subs"); a_skip_verify = (get kvs "skip" = "1"); a_patterns = dec_list (get kvs "pats"); a_mode = mode_of (get kvs "mode") } in
+  let res = accept_decide r o in
+  let st = int_of_nat res.ar_status in
+  if st = 101 then
+    Printf.sprintf "status=101 hijacked=1 accept=%s proto=%s ext=%s connproto=%s co=%s" (hexb res.ar_accept) (hexb res.ar_subproto)
+      (match res.ar_copts with Some c -> hexb (render_copts c) | None -> "-") (hexb res.ar_subproto) (co_str res.ar_copts)
+  else Printf.sprintf "status=%d hijacked=0 accept=- proto=- ext=- connproto=- co=-" st
+
+let run_hs_dial kvs ikvs =
+  let o = { d_subprotocols = dec_list (get kvs "subs"); d_mode = mode_of (get kvs "mode") } in
+  (* the key Dial generated is an input (crypto/rand): the scripted peer derives the accept value from it; the model
+     reasons with a fixed stand-in key and the same derivation, so that only the RELATION between key and accept matters *)
+  let key64 = bytes_of_string "dGhlIHNhbXBsZSBub25jZQ==" in
+  let other = bytes_of_string "x3JJHMbDL1EzLkh9GBhXDw==" in
+  let hdrs = dec_hdrs (get kvs "hdrs") in
+  let acc v = (bytes_of_string "Sec-Websocket-Accept", v) in
+  let upper l = List.map (fun c -> let i = int_of_n c in if i >= 97 && i <= 122 then n_of_int (i - 32) else c) l in
+  let without = List.filter (fun (k, _) -> string_of_bytes k <> "Sec-Websocket-Accept") hdrs in
+  let hdrs = match get kvs "accept" with
+    | "correct" -> without @ [acc [accept_key key64]]
+    | "other" -> without @ [acc [accept_key other]]
+    | "upper" -> without @ [acc [upper (accept_key key64)]]
+    | "empty" -> without @ [acc [[]]]
+    | "double" -> without @ [acc [accept_key other; accept_key key64]]
+    | _ -> hdrs in
+  let resp = { p_status = nat_of_int (int_of_string (get kvs "status")); p_hdrs = hdrs } in
+  let (ok, co, sub) = match verify_server_response o key64 resp with
+    | VOk c -> ("1", co_str c, hexb (hs_get hdrs (bytes_of_string "Sec-Websocket-Protocol")))
+    | VErr -> ("0", "-", "-") in
+  (* the request: the headers Dial must set, over the caller's headers (reserved keys are overwritten) *)
+  let set = dial_headers o (bytes_of_string "@KEY@") in
+  let caller = dec_hdrs (get_or kvs "chdrs" "-") in
+  let setkeys = List.map (fun (k, _) -> string_of_bytes k) set in
+  let merged = List.filter (fun (k, _) -> not (List.mem (string_of_bytes k) setkeys)) caller @ set in
+  let flat = List.concat_map (fun (k, vs) -> List.map (fun v -> (string_of_bytes k, v)) vs) merged in
+  let flat = List.stable_sort (fun (a, _) (b, _) -> compare a b) flat in
+  let req = if flat = [] then "-" else String.concat "|" (List.map (fun (k, v) -> k ^ "~" ^ hexb v) flat) in
+  let host = match get_or kvs "hostopt" "-" with "-" -> hex "dial.example" | h -> h in
+  Printf.sprintf "ok=%s subproto=%s co=%s keyok=1 method=GET host=%s req=%s" ok sub co host req
+
 let suites : (string * ((string * string) list -> (string * string) list -> string)) list = [
+  "hs-accept", run_hs_accept;
+  "hs-dial", run_hs_dial;
   "pair", run_pair;
   "close", run_close;
   "wire-in", run_wirein;
